@@ -310,13 +310,15 @@ func c05Run(o *out, input string) {
 			o.emit(input, "panic")
 			return
 		}
+		// (the header as it went out: what was set after the response header was committed is not part of it)
+		sent := w.Result().Header
 		hv := func(k string) string {
-			if v, ok := w.Header()[k]; ok && len(v) > 0 {
+			if v, ok := sent[k]; ok && len(v) > 0 {
 				return hx([]byte(v[0]))
 			}
 			return "none"
 		}
-		o.emit(input, fmt.Sprintf("%d %s %s %s %s %s", w.Code, hx([]byte(w.Header().Get("Content-Type"))), hx(w.Body.Bytes()),
+		o.emit(input, fmt.Sprintf("%d %s %s %s %s %s", w.Code, hx([]byte(sent.Get("Content-Type"))), hx(w.Body.Bytes()),
 			hv("Grpc-Status"), hv("Grpc-Message"), hv("Grpc-Status-Details-Bin")))
 	case "ws":
 		if e.lb == nil {
